@@ -129,11 +129,27 @@ func ZZ_C09_LoadVsWrite() {
 	if mode == 1 {
 		o.RefreshCalculator = RefreshWriting[int, int](1 << 40)
 	}
+	// mode 2: Get on a key whose entry has expired but has not been swept (write-reset expiry, manual clock, queueing
+	// executor so that no maintenance runs during the race): abstractly the key is absent, physically its node is
+	// still in the table when the load starts and when the writer arrives
+	var mclk *zzClock
+	var lex *zzLockedExec
+	if mode == 2 {
+		mclk = &zzClock{now: 1 << 32}
+		lex = &zzLockedExec{}
+		o.Clock = mclk
+		o.Executor = lex.exec
+		o.ExpiryCalculator = ExpiryWriting[int, int](1000)
+	}
 	c := Must(o)
+	vDaemons() // mode 2: periodicCleanUp waits for a ticker the manual clock never fires
 	clk := &zzTick{}
 	const loaded, written, initial = 900, 700, 300
-	if mode == 1 {
+	if mode == 1 || mode == 2 {
 		c.Set(1, initial)
+	}
+	if mode == 2 {
+		mclk.now += 1000
 	}
 	loadStart, loadCalls := 0, 0
 	ld := LoaderFunc[int, int](func(ctx context.Context, key int) (int, error) {
@@ -150,7 +166,7 @@ func ZZ_C09_LoadVsWrite() {
 	l0 := 0
 	L := func() {
 		l0 = clk.now()
-		if mode == 0 {
+		if mode == 0 || mode == 2 {
 			lv, lerr = c.Get(context.Background(), 1, ld)
 		} else {
 			r := <-c.Refresh(context.Background(), 1, ld)
@@ -175,6 +191,14 @@ func ZZ_C09_LoadVsWrite() {
 		w1 = clk.now()
 	}
 	vPar(L, W)
+	if mode == 2 {
+		// pending maintenance must not change the outcome either
+		if vChoice("maint", 2) == 1 {
+			lex.run()
+			c.CleanUp()
+			lex.run()
+		}
+	}
 	e, present := c.GetEntryQuietly(1)
 	final := -1
 	if present {
@@ -206,7 +230,7 @@ func ZZ_C09_LoadVsWrite() {
 		vAssert(final == loaded, "c09.load_after_write_installs")
 	case loadCalls == 0:
 		// the Get found W's value in the cache and did not load
-		vAssert(mode == 0 && final == written && lv == written, "c09.no_load_when_present")
+		vAssert(mode != 1 && final == written && lv == written, "c09.no_load_when_present")
 	}
 	_ = lret
 	vAssert(c.cache.singleflight.getCall(1) == nil, "c09.no_inflight_record_left")
